@@ -15,10 +15,60 @@ EPOCH = _dt.datetime(2030, 1, 1, 0, 0, 0)
 def prod_list(cfg):
     """the observer's producers, in order: [dict(same_stage, prod_rep)]"""
     if cfg.get('prods') is not None:
-        return [dict(same_stage=bool(p['same_stage']), prod_rep=bool(p['prod_rep'])) for p in cfg['prods']]
+        # (an entry marked loop_only is a component the observer only WAITS for - it is one of the components a loop
+        #  reference stands for, never the latest: Job.producerInstances does not list it; producer-level scripts only)
+        return [dict(same_stage=bool(p['same_stage']), prod_rep=bool(p['prod_rep'])) for p in cfg['prods']
+                if not p.get('loop_only')]
     if not cfg['has_prod']:
         return []
     return [dict(same_stage=bool(cfg['same_stage']), prod_rep=bool(cfg['prod_rep']))]
+
+
+OBS_STAGE = 2          # producer-level scripts: the observer is stage2.obs; earlier stages are 0 and 1
+OBS_NAME = 'obs'
+OBS_IDX = 99           # what the observer itself / an unrelated component k count as in a producer list
+STRANGER_IDX = 100
+
+
+def ref_layout(cfg):
+    """producer-level scripts: where the observer's producers live in the workflow graph and how the observer
+    references them.  Returns dict(prods=[dict(stage, name, inst)], refs=[dict(to, via, file, method)], extra=[dict(stage,
+    name, inst)]).  prods[i] (optional keys of cfg['prods'][i]): stage (OBS_STAGE iff same_stage), component name
+    (unique within a stage only), inst = a ComponentState exists for it (false: a component of an earlier stage
+    that was not re-created when a later stage was restarted).  refs: one data reference each, `to` = producer
+    indices; via 'abs' (stageN.name), 'rel' (name, same stage only), 'loop' (a loop placeholder standing for all of
+    `to`; only the method loopref refers to all of them, any other method to the latest = last one).  extra:
+    unrelated components in the graph.  Defaults: distinct names, one absolute reference per producer."""
+    raw = cfg.get('prods') if cfg.get('prods') is not None else prod_list(cfg)
+    prods = []
+    for i, r in enumerate(raw):
+        stage = r.get('stage', OBS_STAGE if r['same_stage'] else i % 2)
+        prods.append(dict(stage=int(stage), name=r.get('name', 'prod%d' % i), inst=bool(r.get('inst', True)),
+                          loop_only=bool(r.get('loop_only'))))
+        assert (stage == OBS_STAGE) == bool(r['same_stage']), (cfg, i)
+        assert not (i and prods[i - 1]['loop_only'] and not prods[i]['loop_only']), cfg      # loop-only components come last
+    refs = cfg.get('refs')
+    if refs is None:
+        refs = [dict(to=[i], via='abs', file=None, method='ref') for i in range(len(prods)) if not prods[i]['loop_only']]
+    extra = [dict(stage=int(x['stage']), name=x['name'], inst=bool(x.get('inst', True))) for x in (cfg.get('extra') or [])]
+    keys = [(x['stage'], x['name']) for x in prods + extra] + [(OBS_STAGE, OBS_NAME)]
+    assert len(set(keys)) == len(keys), keys
+    for r in refs:
+        assert r['to'] and all(0 <= i < len(prods) for i in r['to']), r
+        assert r['via'] in ('abs', 'rel', 'loop') and (r['via'] == 'loop' or len(r['to']) == 1), r
+        assert r['via'] != 'rel' or prods[r['to'][0]]['stage'] == OBS_STAGE, r
+        assert not prods[r['to'][-1]]['loop_only'], r        # never referenced directly, never the latest of a loop
+    return dict(prods=prods, refs=refs, extra=extra)
+
+
+def ref_targets(lay):
+    """the producers (indices) each reference stands for"""
+    return [list(r['to'] if (r['via'] != 'loop' or r['method'] == 'loopref') else r['to'][-1:]) for r in lay['refs']]
+
+
+def ref_ids(lay):
+    """the component ids (stage, name) each reference stands for - what the observer's producer list is made from"""
+    return [[(lay['prods'][i]['stage'], lay['prods'][i]['name']) for i in to] for to in ref_targets(lay)]
 
 
 class StopDriving(BaseException):
@@ -202,47 +252,162 @@ class Driver(object):
         self.pending_ntf = bool(st['o'].get('ntf'))
 
     def _stage_in(self, cfg, plist):
-        """stageIn mode: the notification is not scripted; the REAL ComponentState.stageIn (workflow.py) subscribes the
-        real engine to the notifyFinished observables of the producers that are alive (cfg['alive0']) and calls
-        notify_all_producers_finished itself.  Its thread-pool scheduler is replaced by an immediate one."""
+        """stageIn mode: the notification is not scripted; the REAL ComponentState.stageIn (workflow.py) asks the REAL
+        ComponentState.producers property for the observer's producers - the observer's data references (real
+        experiment.model.graph.DataReference objects) resolved in a networkx workflow graph whose nodes carry weak
+        references to the producers' (duck-typed) ComponentStates -, subscribes the real engine to the notifyFinished
+        observables of those that are alive (cfg['alive0']) and calls notify_all_producers_finished itself.  Its
+        thread-pool scheduler is replaced by an immediate one.  The job's producerInstances is the REAL
+        Job.producerInstances run over the same graph."""
+        import weakref
+        import networkx
         import experiment.runtime.workflow as W
+        import experiment.model.graph as G
         import reactivex.subject
         import reactivex.scheduler
         drv = self
+        lay = ref_layout(cfg)
         self.alive = [bool(x) for x in cfg['alive0']]
-        assert len(self.alive) == len(plist)
-        self.subjects = [reactivex.subject.Subject() for _ in plist]
+        ncomp = len(lay['prods'])
+        assert len(self.alive) == ncomp and len(plist) == len([p for p in lay['prods'] if not p['loop_only']])
+        assert all(p['inst'] or not a for p, a in zip(lay['prods'], self.alive)), cfg
+        self.subjects = [reactivex.subject.Subject() for _ in range(ncomp)]
+        # a component the observer only waits for has a job of its own, which the observer's engine never looks at
+        jobs = list(self.job_prods)
+        for i in range(len(plist), ncomp):
+            lj = _Obj()
+            lj.stageIndex = 0 if lay['prods'][i]['stage'] == OBS_STAGE else -1
+            lj.isRepeat = True
+            lj.identification = 'stage%d.%s' % (lay['prods'][i]['stage'], lay['prods'][i]['name'])
+            lj.workingDirectory = types.SimpleNamespace(output=[], path='/nonexistent/verif_c13/loop%d' % i,
+                                                        outputSinceDate=lambda date: [])
+            jobs.append(lj)
+        self.all_jobs = jobs
         self.prod_states = []
-        for i in range(len(plist)):
+        key = lambda x: 'stage%d.%s' % (x['stage'], x['name'])
+        graph = networkx.DiGraph()
+        for i in range(ncomp):
             # a living producer is RUNNING or in POSTMORTEM (its task exited and the controller is about to restart
             # it): either way the observer has to wait for it; a producer that is not alive is in a final state
             in_pm = (i + int(cfg.get('retries') or 0) + int(cfg.get('t0') or 0) // 1000) % 2 == 0
             ps = _ProdState(drv, i, in_pm)
             ps.notifyFinished = self.subjects[i]
-            ps.specification = types.SimpleNamespace(reference='stage0.prod%d' % i)
+            ps.specification = types.SimpleNamespace(reference=key(lay['prods'][i]))
             self.prod_states.append(ps)
+            graph.add_node(key(lay['prods'][i]), componentInstance=self.all_jobs[i])
+            if lay['prods'][i]['inst']:
+                graph.nodes[key(lay['prods'][i])]['component'] = weakref.ref(ps)
+        # unrelated components: alive for ever, never written to
+        self.strangers = []
+        for k, x in enumerate(lay['extra']):
+            st = _Obj()
+            st.isAlive = lambda: True
+            st.state = 'running'
+            st.notifyFinished = reactivex.subject.Subject()
+            st.specification = types.SimpleNamespace(reference=key(x))
+            sj = _Obj()
+            sj.stageIndex = 0 if x['stage'] == OBS_STAGE else -1
+            sj.isRepeat = True
+            sj.identification = key(x)
+            sj.workingDirectory = types.SimpleNamespace(output=[], path='/nonexistent/verif_c13/stranger%d' % k,
+                                                        outputSinceDate=lambda date: [])
+            st.job = sj
+            self.strangers.append(st)
+            graph.add_node(key(x), componentInstance=sj)
+            if x['inst']:
+                graph.nodes[key(x)]['component'] = weakref.ref(st)
+        placeholders = {}
+        datarefs = []
+        for k, r in enumerate(lay['refs']):
+            tail = ('/%s' % r['file'] if r.get('file') else '') + ':' + r['method']
+            if r['via'] == 'loop':
+                pid = 'stage%d.loop%d' % (OBS_STAGE, k)
+                placeholders[pid] = {'latest': key(lay['prods'][r['to'][-1]]),
+                                     'represents': [key(lay['prods'][i]) for i in r['to']]}
+                datarefs.append(G.DataReference(pid + tail, stageIndex=OBS_STAGE))
+            elif r['via'] == 'rel':
+                datarefs.append(G.DataReference(lay['prods'][r['to'][0]]['name'] + tail, stageIndex=OBS_STAGE))
+            else:
+                datarefs.append(G.DataReference(key(lay['prods'][r['to'][0]]) + tail, stageIndex=OBS_STAGE))
+        wfg = types.SimpleNamespace(graph=graph, _placeholders=placeholders,
+                                    rootStorage=types.SimpleNamespace(instancePath='/nonexistent/verif_c13'))
+        # the job's producers: the REAL Job.producerInstances over the same references
+        self.job.workflowGraph = wfg
+        self.job.componentSpecification = types.SimpleNamespace(componentDataReferences=datarefs)
         real_notify = self.eng.notify_all_producers_finished
 
         def notify():
             drv.eff[min(drv.k, len(drv.eff) - 1)].append('Notify')
             return real_notify()
         self.eng.notify_all_producers_finished = notify
-        cs = _Obj()
+
+        class _CS(_Obj):
+            # the REAL properties, run on this duck-typed ComponentState
+            producers = W.ComponentState.producers
+            graph = W.ComponentState.graph
+        cs = _CS()
         cs._finishedCalled = False
         cs.engine = self.eng
-        cs.producers = self.prod_states
+        cs.workflowGraph = wfg
         cs.log = logging.getLogger('verif.c13.cs')
-        cs.specification = types.SimpleNamespace(reference='stage0.obs')
+        cs.specification = types.SimpleNamespace(reference='stage%d.%s' % (OBS_STAGE, OBS_NAME), componentDataReferences=datarefs)
         cs.repeatingObservable = None
         cs.repeatingDisposable = None
         cs._notifyProducersFinished = types.MethodType(W.ComponentState._notifyProducersFinished, cs)
+        graph.add_node(cs.specification.reference, component=weakref.ref(cs), componentInstance=self.job)
+        self.cs = cs
+
+        def index_of(x, what):
+            for i, ps in enumerate(what):
+                if x is ps:
+                    return i
+            return None
+
+        def idx_state(x):
+            if x is cs:
+                return OBS_IDX
+            i = index_of(x, self.prod_states)
+            if i is not None:
+                return i
+            k = index_of(x, self.strangers)
+            return STRANGER_IDX + k if k is not None else STRANGER_IDX - 2
+
+        def idx_job(x):
+            if x is self.job:
+                return OBS_IDX
+            i = index_of(x, self.all_jobs)
+            if i is not None:
+                return i
+            k = index_of(x, [st.job for st in self.strangers])
+            return STRANGER_IDX + k if k is not None else STRANGER_IDX - 2
+        # the two producer lists, as the implementation computes them (both are pure)
+        lvl = cs.log.manager.disable
+        logging.disable(logging.CRITICAL)
+        try:
+            try:
+                self.impl_w = [idx_state(x) for x in cs.producers]
+            except Exception as e:
+                self.impl_w = None
+                self.errors.append('producers:%s' % type(e).__name__)
+            try:
+                self.impl_pinst = [idx_job(x) for x in self.job.producerInstances]
+            except Exception as e:
+                self.impl_pinst = None
+                self.errors.append('producerInstances:%s' % type(e).__name__)
+        finally:
+            logging.disable(lvl)
+        if self.errors:
+            return False
         saved = W.ComponentState.componentScheduler
         W.ComponentState.componentScheduler = reactivex.scheduler.ImmediateScheduler()
         try:
             W.ComponentState.stageIn(cs, stageData=False)
+        except Exception as e:
+            self.errors.append('stageIn:%s' % type(e).__name__)
+            return False
         finally:
             W.ComponentState.componentScheduler = saved
-        self.cs = cs
+        return True
 
     def run_case(self, cfg, steps):
         """cfg: dict(retries, has_prod, same_stage, prod_rep, check_out, has_delay, interval, t0[, prods])
@@ -272,6 +437,8 @@ class Driver(object):
         self.ntf_mid = []
         self.eff = [[] for _ in steps]      # what reached the engine, per step (for the property predicate)
         self.alive = None
+        self.impl_w = None
+        self.impl_pinst = None
 
         def mkprod(i, pc):
             prod = _Obj()
@@ -289,7 +456,16 @@ class Driver(object):
             prod.workingDirectory = wd
             return prod
 
-        j = _Obj()
+        stagein = cfg.get('alive0') is not None
+        self.job_prods = [mkprod(i, pc) for i, pc in enumerate(plist)]
+
+        class _Job(_Obj):
+            pass
+        if stagein:
+            # the REAL Job.producerInstances property (over the graph _stage_in builds)
+            _Job.producerInstances = D.Job.producerInstances
+        j = _Job()
+        self.job = j
         j.reference = 'stage0.obs'
         j.name = 'obs'
         j.type = 'local'
@@ -306,7 +482,8 @@ class Driver(object):
         j.workflowAttributes = {'repeatRetries': cfg['retries'], 'optimizer': {'disable': True}, 'isRepeat': True,
                                 'restartHookOn': [], 'shutdownOn': [], 'restartHookFile': None}
         j.repeatInterval = lambda: cfg['interval'] / 1000.0
-        j.producerInstances = [mkprod(i, pc) for i, pc in enumerate(plist)]
+        if not stagein:
+            j.producerInstances = self.job_prods
         var = {}
         if cfg['has_delay']:
             var['kill-after-producers-done-delay'] = '30'
@@ -328,8 +505,11 @@ class Driver(object):
         eng = E.RepeatingEngine(j, taskGenerator=gen)
         eng.emit_now = lambda *a, **k: None
         self.eng = eng
-        if cfg.get('alive0') is not None:
-            self._stage_in(cfg, plist)
+        if stagein and not self._stage_in(cfg, plist):
+            # the producer list could not be built / stageIn raised: nothing runs
+            return {'obs': [], 'finished': False, 'execs': [], 'errors': list(self.errors), 'nsteps': 0, 'fired': [],
+                    'kills': [], 'los': list(self.los), 'eff': [list(e) for e in self.eff], 'w': self.impl_w,
+                    'pinst': self.impl_pinst}
 
         real_cm = self.M.CreateMonitor
 
@@ -358,4 +538,5 @@ class Driver(object):
         finally:
             self.M.CreateMonitor = real_cm
         return {'obs': self.obs, 'finished': finished, 'execs': list(self.execs), 'errors': list(self.errors),
-                'nsteps': len(self.obs), 'fired': list(self.fired), 'kills': list(self.kills), 'los': list(self.los), 'eff': [list(e) for e in self.eff]}
+                'nsteps': len(self.obs), 'fired': list(self.fired), 'kills': list(self.kills), 'los': list(self.los), 'eff': [list(e) for e in self.eff],
+                'w': self.impl_w, 'pinst': self.impl_pinst}
